@@ -456,6 +456,9 @@ func (in *Interp) call(caller *frame, site ssa.Instruction, fn Value, args []Val
 	case Poison:
 		panic(unsupported("call of poisoned function value: " + fn.why))
 	}
+	if nf, ok := fn.(*NativeFunc); ok {
+		return nf.f(in, args)
+	}
 	panic(fmt.Sprintf("cannot call %T", fn))
 }
 
